@@ -120,11 +120,15 @@ def h_termini(eng, layout, first=None, na=3, strict=False):
     # closure distance of every chain (N of first, C of last) symbolic
     close = {}
     pairs = {}
+    ends = {}
     for ci, (cid, residues) in enumerate(chains):
-        first, last = residues[0][0], residues[-1][0]
-        if first in ("ALA", "PRO", "GLY") and last in ("ALA", "PRO", "GLY") and len(residues) > 1:
+        # head-to-tail closure is a fact about the peptide: first and last *amino acid* of the chain, whatever waters, ions or
+        # ligands share the chain id before or after it (wwPDB files list them under the id of the nearest chain)
+        amino_idx = [i for i, (k, _) in enumerate(residues) if k in ("ALA", "PRO", "GLY")]
+        if len(amino_idx) > 1:
             close[ci] = eng.real(f"closure{ci}")
             eng.assume(close[ci] > 0)
+            ends[ci] = (amino_idx[0], amino_idx[-1])
     real = biomol.util.distance
     res_by_key = {}
     for r in bm.residues:
@@ -133,7 +137,7 @@ def h_termini(eng, layout, first=None, na=3, strict=False):
         res_by_key[(ci, r.res_seq - 1)] = r
     for ci, (cid, residues) in enumerate(chains):
         if ci in close:
-            first, last = res_by_key[(ci, 0)], res_by_key[(ci, len(residues) - 1)]
+            first, last = res_by_key[(ci, ends[ci][0])], res_by_key[(ci, ends[ci][1])]
             pairs[(tuple(first.map["N"].coords), tuple(last.map["C"].coords))] = close[ci]
 
     def distance(p, q):
@@ -344,7 +348,7 @@ META = dict(
         "guard: pdb2pqr.utilities.round/abs and pdb2pqr.residue.float -> symx shims",
     ],
     bounds=[
-        "kinds: chain A of three (thorough four) residues over {ALA, PRO, GLY, water, unknown hetero group} + chain B of 0-2 residues over {ALA, water, hetero group}; hidden ends: five amino acids in one chain with any subset of the first four carrying OXT + a second chain; blank chain id variant; closure distance of each chain an arbitrary positive real (cyclic test at 1.35 A); --neutraln/--neutralc symbolic",
+        "kinds: chain A of three (thorough four) residues over {ALA, PRO, GLY, water, unknown hetero group} + chain B of 0-2 residues over {ALA, water, hetero group}; hidden ends: five amino acids in one chain with any subset of the first four carrying OXT + a second chain; blank chain id variant; closure distance of each chain (N of its first amino acid to C of its last amino acid, whatever non-polymer residues share the chain id before/after) an arbitrary positive real (cyclic test at 1.35 A); --neutraln/--neutralc symbolic",
         "guard: every real charge in (-1000, 1000); residue charge: 1-2 (thorough 3) symbolic atom charges in [-2,2]",
         "formal charges: table lemma (finite, exhaustive over listed rows)",
     ],
@@ -354,7 +358,7 @@ META = dict(
 )
 
 MANIFEST = dict(
-    text="For C02: the real set_termini/assign_termini/apply_patch on structures whose composition is symbolic (residue kinds incl. waters and hetero groups, hidden chain ends marked by OXT, two chains, blank chain id), whose closure distance is an arbitrary real and with symbolic --neutraln/--neutralc: N-/C-terminal flags, patches and topology atoms (H2, OXT) sit on exactly the chain ends, once, of the requested kind, none for cyclic chains - the N-terminus on the first amino acid also when non-polymer residues precede it, and of the charged kind unless requested otherwise also when the input already carries hydrogens with or without element columns; the integrality guard noninteger_charge and the four-decimal rounding of Residue.charge for all real charges; formal charge of every listed (force field, state, position) as a table lemma on the real pipeline. Round 4: a residue the input already names by a protonation variant (HSP, HIP, HID, HIE, HSD, HSE, ASH, GLH, LYN, CYM, TYM, AR0) carries that variant formal charge at every chain position (table). Round 5: after a chain is split at a hidden chain end the chain view lists every residue exactly once.",
+    text="For C02: the real set_termini/assign_termini/apply_patch on structures whose composition is symbolic (residue kinds incl. waters and hetero groups, hidden chain ends marked by OXT, two chains, blank chain id), whose closure distance is an arbitrary real and with symbolic --neutraln/--neutralc: N-/C-terminal flags, patches and topology atoms (H2, OXT) sit on exactly the chain ends, once, of the requested kind, none for cyclic chains - the N-terminus on the first amino acid also when non-polymer residues precede it, and of the charged kind unless requested otherwise also when the input already carries hydrogens with or without element columns; the integrality guard noninteger_charge and the four-decimal rounding of Residue.charge for all real charges; formal charge of every listed (force field, state, position) as a table lemma on the real pipeline. Round 4: a residue the input already names by a protonation variant (HSP, HIP, HID, HIE, HSD, HSE, ASH, GLH, LYN, CYM, TYM, AR0) carries that variant formal charge at every chain position (table). Round 6: head-to-tail closure is judged on the first and last amino acid of the chain (found+fixed C02-F3). Round 5: after a chain is split at a hidden chain end the chain view lists every residue exactly once.",
     note="Trusted: z3, symx. Chains have at most five residues; nucleic acids are outside the symbolic part. The table lemma is exhaustive over its rows on template tripeptides, not symbolic.",
     technique="symbolic execution of real code over symbolic chain compositions (symx) + SMT verdict per path; table lemma",
     design="DESIGN.md section 3 C02",
